@@ -44,21 +44,21 @@ Definition getattr_opt (cd : classdef) (a : attrs) (k : pystr) : option pyval :=
 
 Definition not_none (v : pyval) : bool := negb (is_none_val v).
 
-(* shallow_clone_with_overrides: getattr of every field of the class, None values left out *)
-Definition clone_kwargs (cd : classdef) (a : attrs) (over : kwargs) : kwargs :=
-  flat_map (fun k => if alist_has over k then []
-                     else match getattr_opt cd a k with
-                          | Some v => if not_none v then [(k, v)] else []
-                          | None => []
-                          end) (field_names cd)
-  ++ over.
-
 (* cast_to(cls'): getattr(x, f, None) for every field f of the target, None values left out *)
 Definition cast_kwargs (cd c' : classdef) (a : attrs) : kwargs :=
   flat_map (fun k => match getattr_opt cd a k with
                      | Some v => if not_none v then [(k, v)] else []
                      | None => []
                      end) (field_names c').
+
+(* {**base, **over}: an overridden name keeps its place and takes the new value, new names are appended *)
+Definition merge_kw (base over : kwargs) : kwargs :=
+  fold_left (fun acc p => alist_set acc (fst p) (snd p)) over base.
+
+(* shallow_clone_with_overrides: getattr of every field of the class, None values left out, then the overrides
+   merged in ({**fields, **kw}: the order in which the source hands the keywords to the constructor) *)
+Definition clone_kwargs (cd : classdef) (a : attrs) (over : kwargs) : kwargs :=
+  merge_kw (cast_kwargs cd cd a) over.
 
 (* from_other_class(src): every field of cls that src has (None included), then the overrides *)
 Definition from_other_kwargs (cd c : classdef) (a : attrs) (over : kwargs) : kwargs :=
